@@ -22,7 +22,7 @@ tests=$(cd $awt && timeout 900 /venv/bin/python -m pytest -q -p no:cacheprovider
 echo "demo clean=$clean patched=$patched tests: $tests"
 res=""
 for c in "$@"; do
-  r=$(cd /verif && VERIF_EVIDENCE_DIR=/tmp/ev-seeded VERIF_REPO=$wt VERIF_PROCS=${VERIF_PROCS:-8} ./check $c 2>&1 | grep -E "^VIOLATION|^  rule|quick:" | head -7 | cut -c1-260)
+  r=$(cd /verif && VERIF_EVIDENCE_DIR=/tmp/ev-seeded VERIF_REPLAY_DIR=/tmp/replays-seeded VERIF_REPO=$wt VERIF_PROCS=${VERIF_PROCS:-8} ./check $c 2>&1 | grep -E "^VIOLATION|^  rule|quick:" | head -7 | cut -c1-260)
   code=$(echo "$r" | grep -c VIOLATION)
   echo "== $c: $( [ $code -gt 0 ] && echo DETECTED || echo missed )"; echo "$r" | grep -E "rule|quick" | head -3
   res="$res $c:$( [ $code -gt 0 ] && echo detected || echo missed )"
